@@ -632,16 +632,31 @@ def gen_reconnect(rng, knobs=None):
             # the FIRST request of this connection (it has the first stream id) is given up while its fragmented response is arriving;
             # the connection then ends in the middle of that response.  After the reconnect the first request gets the same id:
             # nothing of the old response may leak into its response (the reassembly state belongs to the connection)
-            prog.append(['rr', 'c', spec(rng, big=False), {'mode': 'later'}])
+            variant = rng.choice(k.get('stale_variants') or ['rr_cancelled', 'rr_cancelled', 'channel', 'server_request'])
             ref0 = nref
             nref += 1
-            prog.append(['pump'])
-            prog.append(['respond', ref0, [rng.choice([200, 333]), rng.choice([0, 10])]])
-            prog.append(['settle'])
-            prog.append(['deliver', 's', rng.choice([70, 140, 200])])
-            prog.append(['fut_cancel', ref0])
-            prog.append(['settle'])
-            prog.append(['deliver', 's', rng.choice([67, 134])])
+            if variant == 'rr_cancelled':
+                prog.append(['rr', 'c', spec(rng, big=False), {'mode': 'later'}])
+                prog.append(['pump'])
+                prog.append(['respond', ref0, [rng.choice([200, 333]), rng.choice([0, 10])]])
+                prog.append(['settle'])
+                prog.append(['deliver', 's', rng.choice([70, 140, 200])])
+                prog.append(['fut_cancel', ref0])
+                prog.append(['settle'])
+                prog.append(['deliver', 's', rng.choice([67, 134])])
+            elif variant == 'channel':
+                # ... or it is a channel whose own sending side is still open: the connection ends between two fragments of an
+                # inbound payload, the channel is failed - and nothing of it may be left in the reassembly state
+                prog.append(['channel', 'c', spec(rng, big=False), 2, {'src': 'scripted', 'pub': True, 'sub': True}, True, {'src': 'scripted'}, True])
+                prog.append(['pump'])
+                prog.append(['emit', ref0, 'resp', rng.choice([200, 333]), rng.choice([0, 10]), 0])
+                prog.append(['settle'])
+                prog.append(['deliver', 's', rng.choice([70, 140])])
+            else:
+                # ... or a fragmented request of the server that is not complete (no stream registered for it yet)
+                prog.append(['rr', 's', [rng.choice([200, 333]), rng.choice([0, 10])], {'mode': 'immediate', 'resp': spec(rng, big=False)}])
+                prog.append(['settle'])
+                prog.append(['deliver', 's', rng.choice([70, 140])])
             prog.append(['cut', 's', 'eof'])
             prog.append(['settle'])
             prog.append(['reconnect'])
@@ -649,6 +664,11 @@ def gen_reconnect(rng, knobs=None):
             prog.append(['rr', 'c', spec(rng, big=False), {'mode': 'immediate', 'resp': [rng.choice([5, 100, 333]), 0]}])
             nref += 1
             prog.append(['pump'])
+            if variant == 'server_request':
+                # the new server's first request gets the id of the unfinished one
+                prog.append(['rr', 's', [rng.choice([5, 100, 333]), 0], {'mode': 'immediate', 'resp': spec(rng, big=False)}])
+                nref += 1
+                prog.append(['pump'])
             prog.append(['advance', period + 10])
             prog.append(['pump'])
             continue
